@@ -92,6 +92,7 @@ class Var:
 class Gen:
     def __init__(self, seed, trace=False):
         self.trace = trace; self.ntr = 0
+        self.callable_now = []; self.callees = []
         self.r = random.Random(seed)
         self.out = []
         self.globals = []
@@ -138,13 +139,19 @@ class Gen:
                 out.append(('%s[%s]' % (v.name, 'IDX'), v.ty))
             elif v.kind == 'struct':
                 for fn, ft, w in v.fields:
-                    if fn: out.append(('%s.%s' % (v.name, fn), ft))
+                    if fn: out.append(('%s.%s' % (v.name, fn), self.bftype(ft, w)))
             elif v.kind == 'ptr':
                 out.append(('(*%s)' % v.name, v.ptr_to))
             elif v.kind == 'sptr':
                 for fn, ft, w in v.fields:
-                    if fn: out.append(('%s->%s' % (v.name, fn), ft))
+                    if fn: out.append(('%s->%s' % (v.name, fn), self.bftype(ft, w)))
         return out
+
+    @staticmethod
+    def bftype(ft, w):
+        """type of a member in an expression: a bit-field narrower than int (or signed) is promoted to int"""
+        if w is None or ft == '_Bool': return ft
+        return 'unsigned' if ft == 'unsigned' and w == 32 else ('int' if ITYPES[ft][2] >= 3 else ft)
 
     def expr(self, scope, depth, ty=None, banned=()):
         """a pure expression; returns (text, type)"""
@@ -312,7 +319,7 @@ class Gen:
             elif v.kind == 'struct':
                 for fn, ft, w in v.fields:
                     if fn: targets.append(('%s.%s' % (v.name, fn), ft, v.name, None))
-            elif v.kind == 'ptr': targets.append(('*%s' % v.name, v.ptr_to, v.name, None))
+            elif v.kind == 'ptr': targets.append(('(*%s)' % v.name, v.ptr_to, v.name, None))
             elif v.kind == 'sptr':
                 for fn, ft, w in v.fields:
                     if fn: targets.append(('%s->%s' % (v.name, fn), ft, v.name, None))
@@ -440,7 +447,7 @@ class Gen:
         for i in range(r.randrange(1, 6)):
             k = r.random()
             if k < 0.3:
-                ft = r.choice(['int', 'unsigned', 'signed char', 'unsigned char', 'short', 'unsigned short', 'long', 'unsigned long', '_Bool', 'unsigned long long'])
+                ft = r.choice(['int', 'unsigned', 'signed char', 'unsigned char', 'short', 'unsigned short', '_Bool'])     # bit-fields wider than int are promoted differently by gcc: left out
                 bits = ITYPES[ft][0]
                 w = 1 if ft == '_Bool' else r.randrange(1, bits + 1)
                 if r.random() < 0.12: fields.append((None, ft, r.choice([0, w]))); continue
